@@ -317,7 +317,11 @@ fn ops_json(h: &[Op], uni: &Universe) -> Vec<Value> {
 
 fn run_typed<P: PType>(spec: &Value) -> Value {
     let t0 = std::time::Instant::now();
-    let embed = if spec["embed"].as_str() == Some("lo") { Embed::Lo } else { Embed::Hi };
+    let embed = match spec["embed"].as_str() {
+        Some("lo") => Embed::Lo,
+        Some("mid") => Embed::Mid,
+        _ => Embed::Hi,
+    };
     let uni = Universe::new(spec["universe"].as_str().unwrap_or("U2"), embed, P::WIDTH);
     let (m, r) = (spec["a_mod"].as_u64().unwrap_or(1) as usize, spec["a_rem"].as_u64().unwrap_or(0) as usize);
     let max_schedules = spec["max_schedules"].as_u64().unwrap_or(200_000) as usize;
@@ -387,7 +391,11 @@ fn parse_shape(s: &str) -> Shape {
 
 fn replay_typed<P: PType>(rp: &Value) -> i32 {
     let spec = &rp["spec"];
-    let embed = if spec["embed"].as_str() == Some("lo") { Embed::Lo } else { Embed::Hi };
+    let embed = match spec["embed"].as_str() {
+        Some("lo") => Embed::Lo,
+        Some("mid") => Embed::Mid,
+        _ => Embed::Hi,
+    };
     let uni = Universe::new(spec["universe"].as_str().unwrap_or("U2"), embed, P::WIDTH);
     let hist = vharness::registry::ops_from_json(&rp["history"]);
     let Some(st) = vharness::registry::rebuild::<PrefixMap<P, u32>>(&uni, &hist, vharness::arena::KeyOpts { reps: false, layout: false, no_free: true }) else {
